@@ -40,6 +40,10 @@ CHECKS = {
    technique="exhaustive input-domain enumeration: all 1 180 672 permission records x all 35 real rule functions x 4 targets with algebraic oracles (no panic, monotonicity, isolation, id symmetry, root, documented-hierarchy upper bound); plus exhaustive operation x session-state tables on the real System and over TCP",
    text="The complete space of permission records (2^10 global x optional stream record 2^6 x topic table none/empty/2^4) is evaluated by every real rule function; adding any single flag or record must never turn allowed into denied, stream-1/topic-1 records must never open stream 2/topic 2, stream-level outcomes must not depend on which topic id a topic record is attached to, root is allowed everything, and nothing may be allowed that the most generous reading of the documented hierarchy does not grant. Every System operation is run under never-logged-in and stale sessions (must be refused, nothing may change) and as a user with each single-flag record (never performed when its rule says unauthorized); every SDK call is tried over TCP before login and after logout; permission updates and user deletion are observed on an already open second connection; root cannot be deleted or stripped.",
    note="Trusted base: the 35-row reference table of sufficient flags (ambiguities resolved towards 'allowed', so it can only under-report); HTTP routes not covered in this revision."),
+ "C04": dict(cat="fault_enumeration", engine="E-crash", design="§5 C04",
+   technique="crash-point and torn-write enumeration on the real write path: the data directory is photographed from the single blocking-pool thread between every two file operations of every workload up to a depth; every photograph, every subset of the file writes queued between two photographs and every torn length of each of them is materialised as a crash image, and the real server is started on every image",
+   text="Workloads (sends that roll segments over, flushes, consumer-offset stores, journalled commands, time- and size-based retention, purge) run under wait / no-wait confirmation x fsync x index cache. On every crash image the server must start; the partition must read as a gap-free, duplicate-free run of the accepted messages holding at least everything whose write had completed before the crash point; two further sends must continue at the next offset and read back; a further clean restart must show the same log; the stored consumer offset must be an old or a new value. A torn journal tail may be reported by a start-up error.",
+   note="Trusted base: photographs are taken by a closure in the same FIFO queue as the server's file operations (max_blocking_threads = 1), so each shows a state between two operations; creations/removals are awaited by the server and therefore ordered, queued writes are treated as unordered. Process-death model only: no reordering of unsynced pages after power loss; the interval in which the server has answered while tokio still holds the bytes is not charged (DESIGN.md §7)."),
  "C11": dict(cat="model_checking", engine="E-sched + E-enum/journal", design="§5 C11",
    technique="stateless exploration of task interleavings of the real binary handlers under a controlled scheduler (deviation-bounded, all schedules within the bound), exhaustive fault subsets of failing journal appends, and exhaustive mutation families of valid journals against the real loader",
    text="(a) The real purge/create/update handlers are entered through the public dispatcher as gated tasks (shared-lock and exclusive-lock handlers mixed); every schedule within the deviation bound is executed. (b) Every subset of failing journal appends in a sequential history of four commands, and a failing append inside a concurrent scenario. After every execution the journal must load with consecutive indices, contain exactly the acknowledged commands, and the server must restart from it. (c) A valid journal (plain and encrypted) is mutated exhaustively - every byte x 8 bit flips (thorough: 255 values), every truncation length, every entry removed / duplicated / re-appended, every transposition, appended garbage - and the loader must answer with an error or a prefix of the true history, never another history, never a panic, never a multi-GiB allocation.",
@@ -121,6 +125,8 @@ def main():
              "kind_free_text": "explicit-state tree search over operation histories; state = history, rebuilt by re-executing the real server on a fresh copy of a journalled template directory; one child OS process per job"},
             {"name": "E-sched", "path": "/verif/harness/src/sched.rs", "serves_properties": ["C11", "C12"],
              "kind_free_text": "controlled scheduler over the real async code: logical tasks wrapped in gates, one poll per grant, single blocking-pool thread parked during each gated poll and used as a barrier between decision points; deviation-bounded enumeration of all schedules by re-execution"},
+            {"name": "E-crash", "path": "/verif/harness/src/props/crashp.rs", "serves_properties": ["C04"],
+             "kind_free_text": "crash-image enumeration: a monitor closure in the FIFO queue of the single blocking-pool thread photographs the data directory between every two file operations of the real server; images = photographs + subsets of queued writes + torn lengths; the real server is restarted on each image"},
             {"name": "E-seq/groups", "path": "/verif/harness/src/props/grpp.rs", "serves_properties": ["C08"],
              "kind_free_text": "explicit-state tree search over group membership / poll histories on the real ConsumerGroup and the real System"},
             {"name": "E-seq/catalogue", "path": "/verif/harness/src/cexp.rs", "serves_properties": [p for p in CHECKS if CHECKS[p]["engine"] == "E-seq/catalogue"],
